@@ -1570,7 +1570,7 @@ def _order_block(block: List[ast.stmt]):
 # ----------------------------------------------------------------------------------------------
 
 def _coalesce_copies(fn: ast.FunctionDef) -> bool:
-    params = {a.arg for a in fn.args.args + fn.args.kwonlyargs + fn.args.posonlyargs}
+    params = _fn_params(fn)
     order: Dict[int, int] = {}
     for k, n in enumerate(ast.walk(fn)):
         pass
@@ -1653,6 +1653,35 @@ def _coalesce_generated(fn: ast.FunctionDef) -> bool:
         if isinstance(n, ast.Name) and gen(n.id):
             total[n.id] = total.get(n.id, 0) + 1
 
+    def propagate(block) -> bool:
+        """after `v = w` (w introduced by inlining) later reads of w are reads of v, until either is re-bound"""
+        done = False
+        for k, s in enumerate(block):
+            if isinstance(s, ast.Assign) and len(s.targets) == 1 and isinstance(s.targets[0], ast.Name) \
+                    and isinstance(s.value, ast.Name) and gen(s.value.id) and s.value.id != s.targets[0].id:
+                v, w = s.targets[0].id, s.value.id
+                for t in block[k + 1:]:
+                    rebinds = _stores(t, v) or _stores(t, w)
+                    if rebinds and not isinstance(t, (ast.Assign, ast.AugAssign, ast.Expr, ast.Return)):
+                        break
+                    for n in ast.walk(t):
+                        if isinstance(n, ast.Name) and n.id == w and isinstance(n.ctx, ast.Load):
+                            n.id = v
+                            done = True
+                    if rebinds:
+                        break
+            if isinstance(s, (ast.FunctionDef, ast.ClassDef)):
+                continue
+            for b in _blocks_of(s):
+                done = propagate(b) or done
+        return done
+    if propagate(fn.body):
+        _invalidate()
+        total.clear()
+        for n in ast.walk(fn):
+            if isinstance(n, ast.Name) and gen(n.id):
+                total[n.id] = total.get(n.id, 0) + 1
+
     def find(block) -> bool:
         for k, s in enumerate(block):
             if isinstance(s, ast.Assign) and len(s.targets) == 1 and isinstance(s.targets[0], ast.Name) \
@@ -1666,7 +1695,9 @@ def _coalesce_generated(fn: ast.FunctionDef) -> bool:
                 if j0 < k:
                     cnt += sum(1 for j in range(j0, k) for n in ast.walk(block[j]) if isinstance(n, ast.Name) and n.id == w)
                 region = block[j0:k]
-                if cnt == total.get(w, 0) and region and not any(occurs(r, v) for r in region) \
+                bind_first = bool(region) and _plain_def(region[0], w) and isinstance(region[0].value, ast.Name) \
+                    and region[0].value.id == v
+                if cnt == total.get(w, 0) and region and not any(occurs(r, v) for r in (region[1:] if bind_first else region)) \
                         and _plain_def(region[0], w) \
                         and not any(isinstance(n, (ast.Break, ast.Continue, ast.FunctionDef, ast.Lambda))
                                     for r in region for n in ast.walk(r)):
@@ -1675,6 +1706,8 @@ def _coalesce_generated(fn: ast.FunctionDef) -> bool:
                             if isinstance(n, ast.Name) and n.id == w:
                                 n.id = v
                     del block[k]
+                    if bind_first:
+                        del block[j0]           # the bind has become `v = v`
                     return True
             if isinstance(s, (ast.FunctionDef, ast.ClassDef)):
                 continue
@@ -2281,7 +2314,7 @@ class _HelperInliner:
                     mapping[r] = target
         # parameters that are never re-assigned in the helper and whose argument is a plain name or constant
         # are substituted directly
-        reassigned = mutated_names(ast.Module(body=body, type_ignores=[]), calls=False)
+        reassigned = _stored_names(ast.Module(body=body, type_ignores=[]))     # re-bound names (not element stores)
         binds: List[ast.stmt] = []
         direct: Dict[str, ast.expr] = {}
         for p in params:
